@@ -4,13 +4,15 @@ A *case* is a JSON-able dict
   {"q": quarter duration of the part (int),
    "phases": [[op, ...], ...],      # ops are applied in order; after every phase all maps are queried
    "maps": ["ts", "ks", "clef", "meas"]}   # which families of maps are compared
+  optional "arrays": {"kind": "note"|"rest", "entry": way of getting the array (ARRAY_ENTRIES), "second": ops of part B or
+                      None, "fixed": {option: bool}}   (space array-option-combinations)
 Ops (plain lists):
   ["ts",   t, beats, beat_type]
   ["ks",   t, fifths, mode]            mode in "major" | "minor" | None | "none"
   ["clef", t, staff, sign, line, octave_change|None]
   ["meas", start, end, number]
   ["note", start, end, staff, id]
-  ["rest", start, end, staff, id]
+  ["rest", start, end, staff, id(, voice)]   voice 1 when not given
   ["rm",   i]                          remove the object created by the i-th op (global index)
   ["setq", t, q]                       Part.set_quarter_duration
   ["set",  i, attr, value]             assign an attribute of the object created by the i-th op IN PLACE (no Part.add /
@@ -578,6 +580,110 @@ def gen_onsets_outside(Ls, qs, ts_opts, kmax, gds, fills=FILL_KINDS, numberings=
                                 if not measures_in_scope(_mk_state(q, allops)):
                                     continue
                                 yield dict(q=q, maps=["meas"], phases=[allops], beyond=[g, d], fill=fill)
+
+
+# ---------------------------------------------------------------------------------------------
+# the optional columns of note / rest arrays under every combination of the array options
+
+# how the array is obtained; "2" = from the two parts [A, B], "2r" = [B, A], "1" = from the list [A]
+ARRAY_ENTRIES = {
+    "note": ["Part.note_array", "note_array_from_part", "note_array_from_part_list:2", "PartGroup.note_array:2",
+             "Score.note_array:2"],
+    "rest": ["Part.rest_array", "rest_array_from_part", "rest_array_from_part_list:2", "PartGroup.rest_array:2"],
+}
+ARRAY_ENTRIES_WIDE = {
+    "note": ["note_array_from_part_list:1", "note_array_from_part_list:2r", "Score.note_array:1"],
+    "rest": ["rest_array_from_part_list:1", "rest_array_from_part_list:2r"],
+}
+ARRAY_OPTIONS_NOTE = ["include_pitch_spelling", "include_key_signature", "include_time_signature",
+                      "include_metrical_position", "include_grace_notes", "include_staff", "include_divs_per_quarter"]
+ARRAY_OPTIONS_REST = ["include_pitch_spelling", "include_key_signature", "include_time_signature",
+                      "include_metrical_position", "include_grace_notes", "include_staff", "collapse"]
+
+
+def array_options(entry):
+    """The boolean options the entry point accepts (rest_array_from_part_list and PartGroup.rest_array have no
+    include_metrical_position)."""
+    if "note_array" in entry:
+        # the part-list forms always compute the divisions per quarter (they need them to merge the parts)
+        return [o for o in ARRAY_OPTIONS_NOTE if o != "include_divs_per_quarter" or ":" not in entry]
+    if entry.startswith("Part.") or entry == "rest_array_from_part":
+        return list(ARRAY_OPTIONS_REST)
+    return [o for o in ARRAY_OPTIONS_REST if o != "include_metrical_position"]
+
+
+def array_companion(q):
+    """Ops of the second part B of the two-part entries (same quarter duration as A, other values than any part A:
+    5/4 then 7/8, 6 flats minor then 6 sharps, a pickup of one division, ids m*/s*)."""
+    ops = [["ts", 0, 5, 4], ["ts", 1 + 5 * q, 7, 8], ["ks", 0, -6, "minor"], ["ks", 2, 6, "major"],
+           ["meas", 0, 1, 0], ["meas", 1, 1 + 5 * q, 1], ["meas", 1 + 5 * q, 3 + 5 * q, 2]]
+    for t in (0, 1, 2, 1 + 5 * q, 2 + 5 * q):
+        ops.append(["note", t, t + 1, 1, "m%d" % t])
+        ops.append(["rest", t, t + 1, 2, "s%d" % t])
+    if not measures_in_scope(_mk_state(q, ops)):
+        raise AssertionError("companion part outside the scope of the measure clauses")
+    return ops
+
+
+KS_OPTS = [(), ((0, 3, "major"),), ((2, -2, "minor"),), ((0, -5, None), (3, 1, "minor"))]
+
+
+def gen_array_parts(Ls, qs, kmax, ts_opts, ks_opts=KS_OPTS, cycle_ks=False):
+    """(q, ops) of the parts A: every tiling of 0..L by <= kmax measures x quarter duration x time-signature option
+    (as in gen_meas: 'at0' adds a change at the last barline) x key-signature option (cycle_ks: one option per part,
+    cycled along the enumeration); a note AND a rest of one division start at every position 0..L-1 (rests on staff 1 / 2
+    alternately, voices 1 / 2 in pairs so that collapse=True joins some and keeps some)."""
+    n = 0
+    for L in Ls:
+        for ci, comp in enumerate(compositions(L, kmax)):
+            bounds = [0]
+            for a in comp:
+                bounds.append(bounds[-1] + a)
+            for q in qs:
+                for tso in ts_opts:
+                    ops = []
+                    if tso is not None:
+                        kind, b, bt = tso
+                        if kind == "at0":
+                            ops.append(["ts", 0, b, bt])
+                            if len(bounds) >= 3:
+                                ops.append(["ts", bounds[-2], b + 1, bt])
+                        elif kind == "gap":
+                            if len(bounds) < 3:
+                                continue
+                            ops.append(["ts", bounds[1], b, bt])
+                    ops += [["meas", bounds[i], bounds[i + 1], i + 1] for i in range(len(comp))]
+                    if not measures_in_scope(_mk_state(q, ops + [["note", 0, L, 1, "x"]])):
+                        continue
+                    n += 1
+                    for ki, kso in enumerate(ks_opts):
+                        if cycle_ks and ki != (n + ci) % len(ks_opts):
+                            continue
+                        el = [["ks", t, f, m] for t, f, m in kso if t <= L]
+                        for t in range(L):
+                            el.append(["note", t, t + 1, 1, "n%d" % t])
+                            el.append(["rest", t, t + 1, 1 + t % 2, "r%d" % t, 1 + (t // 2) % 2])
+                        # signatures first or last in the insertion order
+                        allops = (ops + el) if (n + ki) % 2 else (el + ops)
+                        if measures_in_scope(_mk_state(q, allops)):
+                            yield q, allops
+
+
+ARRAY_FIXED = 3  # the first options of the list are fixed by the case, the others enumerated by the check
+
+
+def gen_array_options(Ls, qs, kmax, ts_opts, cycle_ks=False, entries=ARRAY_ENTRIES):
+    """One case per (part A, way of obtaining the array, values of the first ARRAY_FIXED options of that entry point);
+    the check then builds the array for EVERY subset of the remaining boolean options - together every subset of all
+    options. (Split only to spread the work over the workers; the maps of A are queried in the first of the cases.)"""
+    for q, ops in gen_array_parts(Ls, qs, kmax, ts_opts, cycle_ks=cycle_ks):
+        for kind in ("note", "rest"):
+            for entry in entries[kind]:
+                second = array_companion(q) if entry.endswith((":2", ":2r")) else None
+                head = array_options(entry)[:ARRAY_FIXED]
+                for bits in itertools.product((False, True), repeat=len(head)):
+                    yield dict(q=q, maps=[] if any(bits) else ["ts", "ks", "meas"], phases=[ops],
+                               arrays=dict(kind=kind, entry=entry, second=second, fixed=dict(zip(head, bits))))
 
 
 def gen_meas_setq(Ls, kmax):
